@@ -928,6 +928,112 @@ impl Engine for ReadImages {
     }
 }
 
+// ---- subsetting under the overflow-checked build (C20's "subsetting-plan" clause)
+
+#[derive(Clone, Debug, Serialize, Deserialize)]
+pub struct SubsetTrace {
+    pub img: ImageTrace,
+    /// kept glyph ids: first, first+step, ... (count of them)
+    pub first: u32,
+    pub step: u32,
+    pub count: u32,
+    pub unicodes: Vec<u32>,
+    pub flags: u16,
+}
+
+pub struct SubsetImages;
+
+fn truetype_images() -> &'static [usize] {
+    static P: OnceLock<Vec<usize>> = OnceLock::new();
+    P.get_or_init(|| {
+        images()
+            .iter()
+            .enumerate()
+            .filter(|(_, i)| FontRef::new(i.data).map(|f| f.glyf().is_ok() && f.loca(None).is_ok() && f.cmap().is_ok() && f.maxp().is_ok() && f.head().is_ok() && f.hmtx().is_ok()).unwrap_or(false))
+            .map(|(k, _)| k)
+            .collect()
+    })
+}
+
+impl Engine for SubsetImages {
+    type Trace = SubsetTrace;
+    fn name(&self) -> &'static str {
+        "subset_images"
+    }
+    fn rule(&self) -> &'static str {
+        "case = pristine corpus font + a glyph-id progression (first, step, count: from a handful of glyphs to all of them, so that the subset's glyf size lands on both sides of the short/long loca boundary) + code points + subsetter flags; klippa builds the plan and the subset; judged by the absence of overflow / debug-assertion panics (C20); non-trivial iff the subsetter produced a font"
+    }
+    fn components(&self) -> &'static str {
+        "real: klippa Plan::new and subset_font (all table subsetters), write-fonts serializer and FontBuilder, read-fonts; stub: none (no fault axis: requests are the quantifier)"
+    }
+    fn generate(&self, case_seed: u64) -> SubsetTrace {
+        let mut rng = Rng::new(case_seed);
+        // The subsetter is only claimed for well-formed fonts (no listed property makes it total over damaged
+        // bytes, and it is not), so the fonts are the pristine corpus; the request is the varied input.
+        let mut img = gen_trace(&mut rng);
+        img.faults.clear();
+        img.torn_tables.clear();
+        // TrueType-flavoured fonts only (the subsetter's documented domain)
+        let tt = truetype_images();
+        if !tt.is_empty() {
+            img.image = tt[rng.usize_below(tt.len())];
+        }
+        let step = *rng.pick(&[1u32, 1, 1, 2, 3, 5, 17]);
+        let count = *rng.pick(&[1u32, 3, 20, 200, 700, 2000, 70_000]);
+        let unicodes = (0..rng.below(12)).map(|_| *rng.pick(&[0x20u32, 0x41, 0x61, 0xE9, 0x627, 0x915, 0x4E00, 0x1F600, 0xFE0F])  + rng.below(30) as u32).collect();
+        SubsetTrace { img, first: rng.below(40) as u32, step, count, unicodes, flags: *rng.pick(&[0u16, 1, 2, 0x10, 0x40, 0x43, 0x200, 0x3FF]) }
+    }
+    fn execute(&self, t: &mut SubsetTrace, stats: &mut Stats) -> Verdict {
+        let pristine = images()[t.img.image].data;
+        let bytes = if t.img.faults.is_empty() && t.img.torn_tables.is_empty() { Some(pristine.to_vec()) } else { faulted_image(&t.img, stats) };
+        let Some(bytes) = bytes else { return Verdict::Pass { digest: 0, sig: 0, nontrivial: false } };
+        let n = FontRef::new(pristine).ok().and_then(|f| f.maxp().ok().map(|m| m.num_glyphs() as u32)).unwrap_or(0);
+        let gids: Vec<u32> = (0..t.count).map(|i| t.first + i * t.step).take_while(|g| *g < n.max(1)).collect();
+        let r = crate::engines::compile::subset_font(&bytes, &gids, &t.unicodes, t.flags);
+        stats.bump("oracle.C20.subsetter_ran_in_checked_build");
+        let mut d = Digest::new();
+        let ok = match &r {
+            Ok(f) => {
+                d.bytes(f);
+                stats.bump("probe.subset.produced_a_font");
+                if let Ok(fr) = FontRef::new(f) {
+                    if fr.head().map(|h| h.index_to_loc_format()).unwrap_or(0) == 1 {
+                        stats.bump("probe.subset.long_loca_chosen");
+                    } else if fr.table_data(Tag::new(b"glyf")).map(|g| g.len() > 65_535).unwrap_or(false) {
+                        stats.bump("probe.subset.short_loca_with_glyf_above_64k");
+                    }
+                }
+                true
+            }
+            Err(e) => {
+                d.bytes(e.as_bytes());
+                false
+            }
+        };
+        Verdict::Pass { digest: d.finish(), sig: fnv(serde_json::to_string(&(&t.img.image, &t.img.table, &t.img.faults, &t.img.torn_tables, t.first, t.step, t.count, &t.unicodes, t.flags)).unwrap_or_default().as_bytes()), nontrivial: ok }
+    }
+    fn shrink(&self, t: &SubsetTrace) -> Vec<SubsetTrace> {
+        let mut out: Vec<SubsetTrace> = shrink_trace(&t.img).into_iter().map(|img| SubsetTrace { img, ..t.clone() }).collect();
+        if !t.unicodes.is_empty() {
+            out.push(SubsetTrace { unicodes: vec![], ..t.clone() });
+        }
+        if t.flags != 0 {
+            out.push(SubsetTrace { flags: 0, ..t.clone() });
+        }
+        if t.count > 1 {
+            out.push(SubsetTrace { count: t.count / 2, ..t.clone() });
+            out.push(SubsetTrace { count: t.count - 1, ..t.clone() });
+        }
+        if t.first > 0 {
+            out.push(SubsetTrace { first: 0, ..t.clone() });
+        }
+        if t.step > 1 {
+            out.push(SubsetTrace { step: 1, ..t.clone() });
+        }
+        out
+    }
+}
+
 // ---- systematic enumerations: every short read and every header bit flip of one table
 
 #[derive(Clone, Debug, Serialize, Deserialize)]
